@@ -17,7 +17,7 @@ CONSTANTS
   MaxCmds = 1
   Cmds = {"SeekTo", "SetLoop"}
   SeekRevives = TRUE
-  SeekByHeard = FALSE
+  SeekByHeard = TRUE
   Wide = FALSE
 PROPERTY Terminates
 INVARIANTS PropertyHolds NoHang
